@@ -837,6 +837,18 @@ func (w *joeWorld) chooseLastID(s *joeSub) {
 	default:
 		s.idClass = idNever
 		nevers := []string{"zzz", "id0", "999", "-1", "07", "9223372036854775808", "18446744073709551615", "99999999999999999999"}
+		// an ID that has not been issued yet but will be: the ID of a message that is published later
+		// (IDs that cycle, a client that was ahead of a restarted server)
+		inL := map[string]bool{}
+		for _, e := range L {
+			inL[e.tag] = true
+		}
+		for _, pm := range w.allMsgs {
+			if !inL[pm.tag] && pm.msg.ID.IsSet() && pm.msg.ID.String() != "" {
+				nevers = append(nevers, pm.msg.ID.String(), pm.msg.ID.String())
+				break
+			}
+		}
 		v := nevers[w.ch.Intn(len(nevers), "never-issued id")]
 		for _, e := range L {
 			if e.id == v {
@@ -1309,6 +1321,16 @@ func (w *joeWorld) checkDeliveries() {
 			}
 			continue
 		}
+		// a "not yet issued" ID may have been issued by the time the subscription was accepted (its
+		// message was published in between): then it is the ID of that event like any other
+		if s.idClass == idNever && s.lastID.IsSet() {
+			for i := 0; i < s.acceptLpos && i < len(L); i++ {
+				if L[i].err == nil && !L[i].panicked && L[i].id == s.lastID.String() && (w.repKind == 0 || L[i].stored) {
+					s.idLpos, s.idClass = i, idMiddle
+					s.idDesc += fmt.Sprintf(" (issued meanwhile: L[%d])", i)
+				}
+			}
+		}
 		// expected window: from start (after presented ID, or acceptance point) contiguous
 		start := s.acceptLpos
 		startKnown := true
@@ -1468,6 +1490,10 @@ func (w *joeWorld) checkMustInclude(s *joeSub, got map[string]int, endSeq int, p
 			need[base]++
 			if got[base] < need[base] {
 				w.o.violate(prop, "missing", "sub%d (topics %s) never received %s, published entirely within its subscription; got %s", s.id, fmtTopics(s.topics), m.tag, tagsOf(s.sub.Sent()))
+				if w.shutdownSeq != 0 && m.err == nil {
+					// "every pending and future Publish returns (delivered, or ErrProviderClosed)": this one returned nil
+					w.o.violate("C07", "publish-nil-not-delivered", "Publish(%s) returned nil before Shutdown was called, but sub%d, registered and matching, never received it", m.tag, s.id)
+				}
 				return
 			}
 		}
